@@ -118,6 +118,7 @@ PREDECLARED = ["string", "error", "len", "append", "make", "new", "panic", "nil"
                "recover", "close", "min", "max", "clear", "byte", "rune", "bool", "float64", "uint8", "complex128", "uintptr", "comparable", "println", "real", "imag"]
 TEMPLATE_LOCALS = ["mock", "_mock", "_m", "_e", "_c", "ret", "ret0", "r0", "r1", "returnFunc", "ok", "run", "args", "_va", "_ca", "_i", "tmpRet", "variadicArgs",
                    "i", "a", "t", "callInfo", "calls", "mock0", "lock", "sync", "fmt", "testing", "_", "T", "Call", "Mock", "Arguments", "Run", "Return"]
+CAPTURED_LOCALS = ("_c", "_ca", "_e", "_i", "_mock", "_va", "callInfo", "mock", "r0", "r1", "tmpRet")   # known findings KF-C01-12..27
 QUALIFIER_NAMES = ["model", "http", "io", "context", "time", "unsafe", "oddname", "q_ma", "sort", "os", "mocks", "src"]
 CASE_PAIRS = [("a", "A"), ("id", "Id", "ID"), ("url", "URL"), ("http", "HTTP"), ("x", "X")]
 NONASCII = ["é", "größe", "名前", "ñandú", "Δ", "ünï"]
@@ -358,8 +359,10 @@ def catalogue(g):
             add("ident.template-local." + nm, ["P(%s int, y string) (int, error)" % nm, "R(x int) (%s string, err error)" % nm, "V(p bool, %s ...string) (bool, error)" % nm,
                                                "N(%s bool)" % nm])
             # own interfaces: a shadowing local of the same type leaves the mock compilable, only the values a callback receives tell
-            add("ident.template-local-bool." + nm, ["B(%s bool, n int) (bool, error)" % nm, "B2(n int, %s bool) bool" % nm])
-            add("ident.template-local-error." + nm, ["E(n int, %s error) error" % nm])
+            # (names of the recorded identifier-capture family do not compile whatever the parameter type: nothing to add for them)
+            if nm not in CAPTURED_LOCALS:
+                add("ident.template-local-bool." + nm, ["B(%s bool, n int) (bool, error)" % nm, "B2(n int, %s bool) bool" % nm])
+                add("ident.template-local-error." + nm, ["E(n int, %s error) error" % nm])
     for nm in QUALIFIER_NAMES:
         add("ident.qualifier." + nm, ["P(%s int, t %s.T) %s.T" % (nm, qa, qb), "Q(%s io.Reader, c context.Context) (http.Header, error)" % nm])
     add("ident.qualifier-own-type", ["P(model %s.T, http *http.Request, io io.Reader, context context.Context, time time.Duration) error" % qa])
